@@ -20,6 +20,7 @@ pub struct Job {
     pub has_pre: bool,
     pub has_post: bool,
     pub modes: String,
+    pub raw: Value,
 }
 
 fn cps_to_string(v: &Value) -> String {
@@ -49,6 +50,7 @@ impl Job {
             has_pre: !pre.is_empty(),
             has_post: !post.is_empty(),
             modes: v["modes"].as_str().unwrap_or("").to_string(),
+            raw: v.clone(),
         }
     }
     pub fn has(&self, m: char) -> bool {
@@ -501,4 +503,109 @@ where
         }
     });
     json!({"parse": parse, "check": check})
+}
+
+/// Flatten whatever a generated getter returns (&Rule, Option, Vec, tuples, nested) into the spans of the nodes (C16).
+pub trait Flat<'i, R: RuleType> {
+    fn flat(&self, out: &mut Vec<(usize, usize)>);
+    fn shape(&self) -> String;
+}
+impl<'i, R: RuleType, T: pest_typed::Spanned<'i, R>> Flat<'i, R> for &T {
+    fn flat(&self, out: &mut Vec<(usize, usize)>) {
+        let s = self.span();
+        out.push((s.start(), s.end()));
+    }
+    fn shape(&self) -> String {
+        "x".into()
+    }
+}
+impl<'i, R: RuleType, T: Flat<'i, R>> Flat<'i, R> for Option<T> {
+    fn flat(&self, out: &mut Vec<(usize, usize)>) {
+        if let Some(x) = self {
+            x.flat(out)
+        }
+    }
+    fn shape(&self) -> String {
+        match self {
+            Some(x) => format!("Some({})", x.shape()),
+            None => "None".into(),
+        }
+    }
+}
+impl<'i, R: RuleType, T: Flat<'i, R>> Flat<'i, R> for Vec<T> {
+    fn flat(&self, out: &mut Vec<(usize, usize)>) {
+        for x in self {
+            x.flat(out)
+        }
+    }
+    fn shape(&self) -> String {
+        format!("[{}]", self.iter().map(|x| x.shape()).collect::<Vec<_>>().join(","))
+    }
+}
+macro_rules! flat_tuple {
+    ($($t:ident $i:tt),*) => {
+        impl<'i, R: RuleType, $($t: Flat<'i, R>),*> Flat<'i, R> for ($($t,)*) {
+            fn flat(&self, out: &mut Vec<(usize, usize)>) { $( self.$i.flat(out); )* }
+            fn shape(&self) -> String { format!("({})", vec![$( self.$i.shape() ),*].join(",")) }
+        }
+    };
+}
+flat_tuple!(A 0, B 1);
+flat_tuple!(A 0, B 1, C 2);
+flat_tuple!(A 0, B 1, C 2, D 3);
+flat_tuple!(A 0, B 1, C 2, D 3, E 4);
+flat_tuple!(A 0, B 1, C 2, D 3, E 4, F 5);
+flat_tuple!(A 0, B 1, C 2, D 3, E 4, F 5, G 6);
+flat_tuple!(A 0, B 1, C 2, D 3, E 4, F 5, G 6, H 7);
+
+/// Same for getters of rules without a span (silent rules): only the number of nodes can be observed.
+pub trait Cnt {
+    fn cnt(&self) -> usize;
+    fn cshape(&self) -> String;
+}
+impl<T> Cnt for &T {
+    fn cnt(&self) -> usize {
+        1
+    }
+    fn cshape(&self) -> String {
+        "x".into()
+    }
+}
+impl<T: Cnt> Cnt for Option<T> {
+    fn cnt(&self) -> usize {
+        self.as_ref().map(|x| x.cnt()).unwrap_or(0)
+    }
+    fn cshape(&self) -> String {
+        match self {
+            Some(x) => format!("Some({})", x.cshape()),
+            None => "None".into(),
+        }
+    }
+}
+impl<T: Cnt> Cnt for Vec<T> {
+    fn cnt(&self) -> usize {
+        self.iter().map(|x| x.cnt()).sum()
+    }
+    fn cshape(&self) -> String {
+        format!("[{}]", self.iter().map(|x| x.cshape()).collect::<Vec<_>>().join(","))
+    }
+}
+macro_rules! cnt_tuple {
+    ($($t:ident $i:tt),*) => {
+        impl<$($t: Cnt),*> Cnt for ($($t,)*) {
+            fn cnt(&self) -> usize { 0 $( + self.$i.cnt() )* }
+            fn cshape(&self) -> String { format!("({})", vec![$( self.$i.cshape() ),*].join(",")) }
+        }
+    };
+}
+cnt_tuple!(A 0, B 1);
+cnt_tuple!(A 0, B 1, C 2);
+cnt_tuple!(A 0, B 1, C 2, D 3);
+cnt_tuple!(A 0, B 1, C 2, D 3, E 4);
+cnt_tuple!(A 0, B 1, C 2, D 3, E 4, F 5);
+cnt_tuple!(A 0, B 1, C 2, D 3, E 4, F 5, G 6);
+cnt_tuple!(A 0, B 1, C 2, D 3, E 4, F 5, G 6, H 7);
+
+pub fn spans_json(v: &[(usize, usize)]) -> Value {
+    Value::Array(v.iter().map(|(a, b)| json!([a, b])).collect())
 }
